@@ -143,6 +143,12 @@ def session(part, rng, srv_holder, variant, known, nreq):
                     if rng.random() < .1: ch = {"text": c02gen.hostile_text(rng)}; new = ch["text"]
                     batch.append(ch); cur = new
                 log["changes"].append(batch); srv.change(uri, batch)
+                if rng.random() < .12:
+                    # change storm: more consecutive notifications than the server's internal queues hold (32), nothing read meanwhile
+                    for _s in range(rng.choice([33, 40, 70, 130])):
+                        ch, cur = c02gen.random_lsp_change(rng, cur)
+                        log["changes"].append([ch]); srv.change(uri, [ch])
+                    part.cnt("change_storms")
             for pos in positions(rng, cur, max(1, nreq // rounds // 4)):
                 for method in rng.sample(POS_METHODS, rng.choice([2, 4, 10])):
                     p = params_for(method, uri, pos, rng); pending.append((srv.post(method, p), method, p, cur))
